@@ -453,16 +453,27 @@ func (l *Lexer) scanCommodityOrText() Token {
 
 	l.pos = start
 	l.column = startPos.Column
+	if followsAmount {
+		// a commodity written after its number ends where a cost or assertion starts
+		return l.scanTextUntil(true)
+	}
 	return l.scanText()
 }
 
 func (l *Lexer) scanText() Token {
+	return l.scanTextUntil(false)
+}
+
+func (l *Lexer) scanTextUntil(stopAtOperator bool) Token {
 	start := l.pos
 	startPos := l.position()
 
 	for l.pos < len(l.input) {
 		ch := l.peek()
 		if ch == '\n' || ch == ';' || ch == '|' {
+			break
+		}
+		if stopAtOperator && (ch == '@' || ch == '=') {
 			break
 		}
 		l.advance()
